@@ -246,7 +246,44 @@ theorem cgS_labels (mod fn : String) (φ : String → Option String) : ∀ (n : 
     refine ⟨?_, ?_, ?_⟩
     · intro loops st env hd
       cases st
-      case typedef | trigger | forS => exact LblInv.nil mod env.lm
+      case typedef | trigger => exact LblInv.nil mod env.lm
+      case forS sp name vty iter body =>
+        obtain ⟨bsp, bty, stmts, boe⟩ := body
+        cases iter <;> try exact LblInv.nil mod env.lm
+        cases boe <;> try exact LblInv.nil mod env.lm
+        rename_i rsp a b incl
+        simp only [Frag.depthGS] at hd
+        simp only [cgS]
+        have h1 := LblInv.single mod env.lm "loop_head" (by decide)
+        generalize freshLabel mod env.lm "loop_head" = head at h1 ⊢
+        have h2 := LblInv.single mod head.2 "loop_update" (by decide)
+        generalize freshLabel mod head.2 "loop_update" = upd at h2 ⊢
+        have h3 := LblInv.single mod upd.2 "loop_end" (by decide)
+        generalize freshLabel mod upd.2 "loop_end" = aft at h3 ⊢
+        have h4 := cgE_lbl mod (ρS env.scopes) φ a aft.2
+        generalize cgE mod (ρS env.scopes) φ a aft.2 = CA at h4 ⊢
+        have h5 := cgE_lbl mod (ρS env.scopes) φ b CA.2
+        generalize cgE mod (ρS env.scopes) φ b CA.2 = CB at h5 ⊢
+        have hlm1 : (freshVar mod { env with scopes := [] :: env.scopes, lm := CB.2 } ("$iter_" ++ name)).2.lm = CB.2 := rfl
+        generalize hFit : freshVar mod { env with scopes := [] :: env.scopes, lm := CB.2 } ("$iter_" ++ name) = fit at hlm1 ⊢
+        have hlm2 : (freshVar mod fit.2 name).2.lm = fit.2.lm := rfl
+        generalize hFhv : freshVar mod fit.2 name = fhv at hlm2 ⊢
+        have h6 := ihSs ((aft.1, upd.1) :: loops) stmts fhv.2 (by omega)
+        rw [hlm2, hlm1] at h6
+        generalize cgSs mod fn φ ((aft.1, upd.1) :: loops) stmts fhv.2 = CS at h6 ⊢
+        refine (((((h1.append h2).append h3).append h4).append h5).append h6).perm (perm_of_count ?_)
+        intro x
+        simp only [definedLabels_append,
+          definedLabels_instr _ _ _ (rfl : isLabel (Instr.intoRange _ : SInstr) = false),
+          definedLabels_instr _ _ _ (rfl : isLabel (Instr.clone : SInstr) = false),
+          definedLabels_instr _ _ _ (rfl : isLabel (Instr.intoIter : SInstr) = false),
+          definedLabels_instr _ _ _ (rfl : isLabel (Instr.setVar _ : SInstr) = false),
+          definedLabels_instr _ _ _ (rfl : isLabel (Instr.getVar _ : SInstr) = false),
+          definedLabels_instr _ _ _ (rfl : isLabel (Instr.iterAdvance : SInstr) = false),
+          definedLabels_instr _ _ _ (rfl : isLabel (Instr.jumpIfFalse _ : SInstr) = false),
+          definedLabels_instr _ _ _ (rfl : isLabel (Instr.jump _ : SInstr) = false),
+          definedLabels_label, definedLabels_nil, List.count_append, List.count_cons, List.count_nil]
+        omega
       case letS sp name vty nc oty e =>
         cases nc
         · simp only [cgS, definedLabels_append,
